@@ -104,6 +104,11 @@ def op_codeconv(c):
             rp["type_kept"] = type(q) is type(p)
             others = [k for k in vars(p) if k.startswith("co_") and k not in ("co_name", "co_firstlineno")]
             rp["others_kept"] = all(h(getattr(q, k)) == h(getattr(p, k)) for k in others)
+            # zero / empty replacement values are values too
+            falsy = {"co_flags": 0, "co_argcount": 0, "co_stacksize": 0, "co_names": (), "co_consts": (), "co_name": ""}
+            falsy = {k: v for k, v in falsy.items() if hasattr(p, k)}
+            qf = p.replace(**falsy)
+            rp["falsy_values_set"] = all(getattr(qf, k) == v for k, v in falsy.items())
             # mutable state must not be shared
             p2 = codeType2Portable(co)
             p2.co_consts = list(p2.co_consts)
